@@ -684,9 +684,14 @@ func (check typecheck) typeAssertionExpr(n *node, typ *itype) error {
 			if !token.IsExported(name) && isBin(typ) {
 				continue
 			}
+			if _, ok := typ.methods()[name]; ok {
+				// The method is promoted from an embedded interface.
+				continue
+			}
 			return n.cfgErrorf("impossible type assertion: %s does not implement %s (missing %v method)", typ.id(), n.typ.id(), name)
 		}
-		if tm.recv != nil && tm.recv.TypeOf().Kind() == reflect.Ptr && typ.TypeOf().Kind() != reflect.Ptr {
+		if _, index := typ.lookupMethod(name); len(index) == 0 && tm.recv != nil && tm.recv.TypeOf().Kind() == reflect.Ptr && typ.TypeOf().Kind() != reflect.Ptr {
+			// The method is not promoted from an embedded field, possibly a pointer.
 			return n.cfgErrorf("impossible type assertion: %s does not implement %s as %q method has a pointer receiver", typ.id(), n.typ.id(), name)
 		}
 
